@@ -601,7 +601,8 @@ func (cb *chunkBuilder) add(cols map[string]*btapb.ColumnFamily, r *btpb.Row) bo
 	if len(cb.chunks) > 0 {
 		cb.chunks[len(cb.chunks)-1].RowStatus = &btpb.ReadRowsResponse_CellChunk_CommitRow{CommitRow: true}
 	}
-	return true
+	// Report whether this row contributed any chunk, so that rows_limit only counts rows that are returned.
+	return !newRow
 }
 
 // filterRow modifies a row with the given filter. Returns true if at least one cell from the row matches,
